@@ -55,6 +55,16 @@ Proof.
   destruct c; cbn [snd]; try exact Hb; eapply R_trans; [exact Hb|apply Hn|exact Hb|apply Hn].
 Qed.
 
+Lemma r_copy_cells dst src idxs : respects (copy_cells dst src idxs).
+Proof. induction idxs as [|i r IH]; cbn [copy_cells]; [apply r_ret|].
+  apply r_bind; [apply r_read|]. intros v. apply r_bind; [apply H_write|]. intros _. exact IH. Qed.
+Lemma r_copy_members x y j flds : respects (copy_members x y j flds).
+Proof. revert j; induction flds as [|f r IH]; intros j; cbn [copy_members]; [apply r_ret|].
+  apply r_bind; [apply r_copy_cells|]. intros _. apply IH. Qed.
+Lemma r_decl_members x j flds : respects (decl_members x j flds).
+Proof. revert j; induction flds as [|f r IH]; intros j; cbn [decl_members]; [apply r_ret|].
+  apply r_bind; [apply H_declare|]. intros _. apply IH. Qed.
+
 Section Helpers.
 Variable ev : expr -> M Z.
 Variable ex : stmt -> M unit.
@@ -142,6 +152,8 @@ Proof.
     + destruct e; [|apply r_lift]. apply r_bind; [apply IHe|]. intros. apply r_lift.
     + apply Hib.
     + apply r_bind; [apply r_print_args; exact IHe|]. intros _. destruct nl; [apply H_out|apply r_ret].
+    + apply r_decl_members.
+    + apply r_copy_members.
 Qed.
 
 Corollary exec_list_respect n ss : respects (exec_list (exec funcs n) ss).
